@@ -42,6 +42,7 @@ type loopInfo struct {
 }
 
 type FnCtx struct {
+	lazyAx map[*Axiom]int
 	eng       *Engine
 	fn        *ssa.Function
 	con       *Contract
@@ -101,6 +102,15 @@ func shortFn(s string) string {
 // ---------- obligations ----------
 
 func (fx *FnCtx) oblige(st *State, name, kind string, cl *Clause, goal string) {
+	if fx.con != nil && fx.con.LockOnly && kind != "lock" {
+		// lock sweep: only the lock discipline of this body is checked; run-time checks and callee preconditions are
+		// assumed (they are obligations of the full contracts, where those exist)
+		switch kind {
+		case "safety", "pre", "inv-entry", "model":
+			fx.sol.Assert(goal)
+		}
+		return
+	}
 	o := fx.obls[name]
 	if o == nil {
 		o = &Obligation{Name: name, Kind: kind, Func: shortFn(fx.fn.String()), Status: "discharged", Backends: map[string]int{}}
@@ -897,6 +907,12 @@ func (fx *FnCtx) unop(st *State, x *ssa.UnOp) {
 			vv := *v
 			vv.Org = "field " + l.className()
 			v = &vv
+		}
+		if g, ok := x.X.(*ssa.Global); ok && !strings.HasPrefix(g.Pkg.Pkg.Path(), modulePath) && v.K == KInt {
+			if _, isPtr := g.Type().(*types.Pointer).Elem().Underlying().(*types.Pointer); isPtr {
+				// package-level pointer variables of dependencies (base64.StdEncoding, ...) are initialised and never nil
+				fx.sol.Assert(tNot(tEq(v.S, "0")))
+			}
 		}
 		st.env[x] = v
 	case token.NOT:
